@@ -12,7 +12,14 @@
                      ENTRIES of the bucket and clause (b) about its lookups
     `pci_recv` `pci_rem` `pci_connect` `pci_restart`   preservation
     `DomP` / `pci_istep` / `pendOK_run`                the history level
-    `pci_of_hinvc` / `pci_flag`                        the start
+    `pci_of_hinvc` / `pci_flag` / `pci_start`          the start: C09's invariant + distinct keys give `PCI`; the flag keeps it
+    `pendNodup_stepH` / `pendNodup_runH`               clause (d) along EVERY C09 history (`filterBlock_sc`, `pn_disconnectBlock`,
+                                                       `pn_recvTx`: the follower only puts / erases whole keys)
+    `pci_reachable`                                    hence `PCI` where a removal starts after a C09 history in the domain
+    `Ex`                                               a concrete interleaved history inside `DomP`
+  NOT covered: reorganising notifications (Rollback re-creates pending credits from the mined ones; their transactions
+  leave the chain): `EvDom` asks every `notify` to extend the follower's tip.
+  Deviation from the plan: clause (a) is stated in lookup form (`AMap.get`), which is what C09 provides and all that is used.
 -/
 import MW.Lemmas.RemoveInterleave
 import MW.Lemmas.RemoveGlue
@@ -1001,6 +1008,246 @@ theorem pci_start {rank : TxId → Nat} {E : HEnv} {w0 : HW} (H : HInvC rank E w
     (addrs : List Addr) (queueLen : Nat) (keystores : List Wid) (passOk : Bool) (w : Wid) :
     PCI (E.ctx w0.node) addrs (removeWallet queueLen keystores passOk w0.s w).2 w0.sp.chain :=
   pci_flag (pci_of_hinvc H hn addrs) queueLen keystores passOk w
+
+-- ------------------------------------------------------------------ clause (d) along C09 histories (no domain needed)
+
+theorem insertMinedTx_sc {own : Own} {s : Store} {bals : Bals} {tr : TxRec} {blk : BlockMeta}
+    {r : Store × Bals × Bool} (h : insertMinedTx own s bals tr blk = .ok r) : Sc r.1 s := by
+  unfold insertMinedTx at h
+  split at h
+  · cases h; exact Sc.refl s
+  · obtain ⟨r1, h1, h2⟩ := M_bind_ok h
+    cases h2
+    have hp := updateMinedBalance_pendSide _ _ _ _ _ h1
+    simp only [pendSide, Prod.mk.injEq] at hp
+    have e : r1.1.pendCred = s.pendCred := hp.2.2.1
+    exact ((removeDoubleSpends_sc own _ tr).trans (unpendMined_sc r1.1 tr.tx)).trans (sc_of_eq e)
+
+theorem addRelevantMined_sc {p : Params} {own : Own} {s : Store} {bals : Bals} {tr : TxRec} {blk : BlockMeta}
+    {r : Store × Bals} (h : addRelevantMined p own s bals tr blk = .ok r) : Sc r.1 s := by
+  unfold addRelevantMined at h
+  obtain ⟨r1, h1, h2⟩ := M_bind_ok h
+  obtain ⟨sa, ba, ex⟩ := r1
+  obtain ⟨s', b'⟩ := r
+  exact (sc_of_eq (addCredits_exact p sa s' ba b' tr blk h2).2.1).trans (insertMinedTx_sc h1)
+
+theorem applyRelevant_sc {c : Ctx} {s s' : Store} {ready : List Wid} {bm : BlockMeta} {recs : List TxRec}
+    (h : applyRelevant c s ready bm recs = .ok s') : Sc s' s := by
+  unfold applyRelevant at h
+  split at h
+  · cases h; exact Sc.refl s
+  · obtain ⟨r, h1, h2⟩ := M_bind_ok h
+    cases h2
+    have : Sc r.1 s := foldlM_preserves_store (·.1) (fun x => Sc x s) _ _
+      (fun _ _ _ _ hb hf => (addRelevantMined_sc hf).trans hb) (b := (s, _)) (Sc.refl s) h1
+    exact (sc_of_eq (a' := { r.1 with balance := _ }) rfl).trans this
+
+/-- filterBlock erases whole keys of the pending-credit bucket, nothing else — no hypothesis -/
+theorem filterBlock_sc {c : Ctx} {s : Store} {ready : List Wid} {b : Block} {r : Store × List TxId}
+    (h : filterBlock c s ready b = .ok r) : Sc r.1 s := by
+  unfold filterBlock at h
+  simp only [throw, throwThe, MonadExceptOf.throw] at h
+  split at h
+  · cases h
+  · split at h
+    · cases h
+    · split at h
+      all_goals
+        obtain ⟨recs, _, h2⟩ := M_bind_ok h
+        obtain ⟨s1, h3, h4⟩ := M_bind_ok h2
+        obtain ⟨s2, h5, h6⟩ := M_bind_ok h4
+        cases h6
+        exact (sc_of_eq (putSyncedTo_cred _ _ _ h5).2.1).trans
+          ((purgeUnrelated_sc c.own _ s1).trans (applyRelevant_sc h3))
+
+theorem rollbackAddr_pendCred (s : Store) (w : Wid) (o : Out) (h : Nat) :
+    (rollbackAddr s w o h).pendCred = s.pendCred := by
+  unfold rollbackAddr
+  dsimp only
+  repeat' split
+  all_goals rfl
+
+theorem pn_rollbackOwnedOut {id : TxId} {blk : BlockMeta} {sb sb' : Store × Bals} {i : Nat} {o : Out} {w : Wid}
+    (h : rollbackOwnedOut id blk sb i o w = .ok sb') : sb'.1.pendCred = sb.1.pendCred := by
+  unfold rollbackOwnedOut at h
+  repeat' split at h
+  all_goals cases h
+  all_goals exact rollbackAddr_pendCred _ w o blk.height
+
+theorem pn_rollbackCbOut {c : Ctx} {id : TxId} {blk : BlockMeta} {acc acc' : (Store × Bals) × List (TxId × Nat)}
+    {i : Nat} {o : Out} (hq : KeysNodup acc.1.1.pendCred) (h : rollbackCbOut c id blk acc i o = .ok acc') :
+    KeysNodup acc'.1.1.pendCred := by
+  unfold rollbackCbOut at h
+  dsimp only at h
+  split at h
+  · cases h; exact hq
+  · split at h
+    · cases h
+    · split at h
+      · cases h; exact hq
+      · obtain ⟨sb1, h1, h2⟩ := M_bind_ok h
+        have hq1 : KeysNodup sb1.1.pendCred := by rw [pn_rollbackOwnedOut h1]; exact hq
+        split at h2 <;> cases h2 <;> exact hq1
+
+theorem pn_rollbackIn {c : Ctx} {id : TxId} {blk : BlockMeta} {sb sb' : Store × Bals} {cur : Nat} {i : Inp}
+    (hq : KeysNodup sb.1.pendCred) (h : rollbackIn c id blk sb cur i = .ok sb') : KeysNodup sb'.1.pendCred := by
+  unfold rollbackIn at h
+  dsimp only at h
+  repeat' split at h
+  all_goals cases h
+  all_goals exact hq
+
+theorem pn_rollbackOut {c : Ctx} {id : TxId} {blk : BlockMeta} {sb sb' : Store × Bals} {i : Nat} {o : Out}
+    (hq : KeysNodup sb.1.pendCred) (h : rollbackOut c id blk sb i o = .ok sb') : KeysNodup sb'.1.pendCred := by
+  unfold rollbackOut at h
+  dsimp only at h
+  split at h
+  · cases h; exact hq
+  · split at h
+    · cases h
+    · split at h
+      · cases h; exact keysNodup_put hq _ _
+      · obtain ⟨sb1, h1, h2⟩ := M_bind_ok h
+        have hq1 : KeysNodup sb1.1.pendCred := by rw [pn_rollbackOwnedOut h1]; exact keysNodup_put hq _ _
+        split at h2 <;> cases h2 <;> exact hq1
+
+theorem pn_rollbackTx {c : Ctx} {s : Store} {bals : Bals} {blk : BlockMeta} {id : TxId}
+    {r : Store × Bals × List (TxId × Nat)} (hq : KeysNodup s.pendCred) (h : rollbackTx c s bals blk id = .ok r) :
+    KeysNodup r.1.pendCred := by
+  unfold rollbackTx at h
+  split at h
+  · cases h; exact hq
+  · split at h
+    · cases h
+    · dsimp only at h
+      split at h
+      · obtain ⟨r1, h1, h2⟩ := M_bind_ok h
+        cases h2
+        exact foldIdxM_preserves_store (·.1.1) (fun s => KeysNodup s.pendCred) _ _
+          (fun _ _ _ _ _ hb hf => pn_rollbackCbOut hb hf) (b := (({ s with txrecs := _ }, bals), [])) hq h1
+      · obtain ⟨sb1, h1, h2⟩ := M_bind_ok h
+        obtain ⟨sb2, h3, h4⟩ := M_bind_ok h2
+        cases h4
+        have hq1 : KeysNodup sb1.1.pendCred :=
+          foldIdxM_preserves_store (·.1) (fun s => KeysNodup s.pendCred) _ _
+            (fun _ _ _ _ _ hb hf => pn_rollbackIn hb hf)
+            (b := ({ s with txrecs := _, pending := _ }, bals)) hq h1
+        exact foldIdxM_preserves_store (·.1) (fun s => KeysNodup s.pendCred) _ _
+          (fun _ _ _ _ _ hb hf => pn_rollbackOut hb hf) hq1 h3
+
+theorem pn_rollbackBlockAt {c : Ctx} {acc acc' : RbAcc} {cur : Nat}
+    (hq : KeysNodup acc.s.pendCred) (h : rollbackBlockAt c acc cur = .ok acc') : KeysNodup acc'.s.pendCred := by
+  unfold rollbackBlockAt at h
+  split at h
+  · cases h; exact hq
+  · refine foldlM_preserves_store (·.s) (fun s => KeysNodup s.pendCred) _ _ ?_
+      (b := { acc with heights := acc.heights ++ [cur] }) hq h
+    intro a id a' _ ha hf
+    obtain ⟨r, h1, h2⟩ := M_bind_ok hf
+    cases h2
+    exact pn_rollbackTx ha h1
+
+theorem purgeSpenders_sc (own : Own) (a : Store) (op : TxId × Nat) : Sc (purgeSpenders own a op) a := by
+  rw [purgeSpenders_eq']
+  apply foldl_inv (fun x => Sc x a) _ _ _ (Sc.refl a)
+  intro x sp _ hx
+  split
+  · exact (removeConflict_sc own _ x _).trans hx
+  · exact hx
+
+theorem pn_rollback {c : Ctx} {s s' : Store} {height : Nat}
+    (hq : KeysNodup s.pendCred) (h : rollback c s height = .ok s') : KeysNodup s'.pendCred := by
+  unfold rollback at h
+  obtain ⟨acc, h1, h2⟩ := M_bind_ok h
+  cases h2
+  have hq1 : KeysNodup acc.s.pendCred :=
+    foldlM_preserves_store (·.s) (fun s => KeysNodup s.pendCred) _ _
+      (fun _ _ _ _ hb hf => pn_rollbackBlockAt hb hf) (b := { s := s, bals := s.balance }) hq h1
+  have e1 : ∀ (l : List Nat) (s : Store),
+      (l.foldl (fun s h => { s with blocks := AMap.erase s.blocks h }) s).pendCred = s.pendCred := by
+    intro l s
+    exact foldl_inv (fun (a : Store) => a.pendCred = s.pendCred) _ _ _ rfl (fun a x _ ha => ha)
+  show KeysNodup (List.foldl (purgeSpenders c.own) _ acc.cb).pendCred
+  have : Sc (List.foldl (purgeSpenders c.own)
+      (acc.heights.foldl (fun s h => { s with blocks := AMap.erase s.blocks h }) acc.s) acc.cb)
+      (acc.heights.foldl (fun s h => { s with blocks := AMap.erase s.blocks h }) acc.s) :=
+    foldl_inv (fun x => Sc x _) _ _ _ (Sc.refl _) (fun x op _ hx => (purgeSpenders_sc c.own x op).trans hx)
+  exact this.nodup (by rw [e1]; exact hq1)
+
+theorem pn_disconnectBlock {c : Ctx} {s s' : Store} {height : Nat}
+    (hq : KeysNodup s.pendCred) (h : disconnectBlock c s height = .ok s') : KeysNodup s'.pendCred := by
+  unfold disconnectBlock at h
+  split at h
+  · cases h
+  · split at h
+    · cases h; exact hq
+    · obtain ⟨s1, h1, h2⟩ := M_bind_ok h
+      cases h2
+      show KeysNodup s1.pendCred
+      exact pn_rollback hq h1
+
+theorem pn_recvTx {c : Ctx} {s : Store} {v : Vol} {t : Tx} (hq : KeysNodup s.pendCred) :
+    KeysNodup (recvTx c s v t).1.pendCred := by
+  by_cases hm : v.mempool.contains t.id = true
+  · rw [recvTx_of_mem c s v t hm]; exact hq
+  cases hf : filterTxRel c s t false [] (readyWallets s c.wallets) with
+  | error err => rw [recvTx_of_error c s v t err hf]; exact hq
+  | ok r =>
+    cases r with
+    | none => rw [recvTx_of_none c s v t hf]; exact hq
+    | some tr =>
+      cases ha : addRelevantUnmined s tr with
+      | error err => rw [recvTx_of_adderr c s v t tr err hf ha]; exact hq
+      | ok s' =>
+        rw [recvTx_of_addok c s v t tr s' hm hf ha]
+        obtain ⟨s0, hc0, _, hs'⟩ := addRelevantUnmined_shape s s' tr ha
+        rcases hs' with rfl | hadd
+        · rw [hc0]; exact hq
+        · exact addUnminedCredits_nodup s0 s' tr hadd (by rw [hc0]; exact hq)
+
+/-- the keys of the pending-credit bucket stay pairwise distinct along EVERY C09 history (a failing step leaves the
+    store alone): clause (d) needs to be known only for the first store — e.g. the fresh wallet's empty bucket -/
+theorem pendNodup_stepH (E : HEnv) (w : HW) (ev : HEv) (h : KeysNodup w.s.pendCred) :
+    KeysNodup (stepH E w ev).s.pendCred := by
+  cases ev with
+  | node n => exact h
+  | vol v => exact h
+  | recv t => exact pn_recvTx h
+  | connect b =>
+    cases hf : filterBlock (E.ctx w.node) w.s (readyWallets w.s E.wallets) b with
+    | error e => simp only [stepH, hf]; exact h
+    | ok r => simp only [stepH, hf]; exact (filterBlock_sc hf).nodup h
+  | disconnect =>
+    cases hl : w.sp.chain.getLast? with
+    | none => simp only [stepH, hl]; exact h
+    | some b =>
+      cases hd : disconnectBlock (E.ctx w.node) w.s b.height with
+      | error e => simp only [stepH, hl, hd]; exact h
+      | ok s' => simp only [stepH, hl, hd]; exact pn_disconnectBlock h hd
+
+theorem pendNodup_runH (E : HEnv) (evs : List HEv) (w : HW) (h : KeysNodup w.s.pendCred) :
+    KeysNodup (runH E w evs).s.pendCred := by
+  induction evs generalizing w with
+  | nil => exact h
+  | cons ev evs ih => exact ih _ (pendNodup_stepH E w ev h)
+
+/-- **the invariant where a removal starts, after any C09 history inside the domain** from a world satisfying C09's
+    invariant whose pending-credit bucket has distinct keys: no hypothesis about the reached store is left -/
+theorem pci_reachable {rank : TxId → Nat} {E : HEnv} (evs : List HEv) (w0 : HW) (H0 : HInvC rank E w0)
+    (hn0 : KeysNodup w0.s.pendCred) (hD : ∀ x ∈ worldsH E w0 evs, HOKc rank E x.1 x.2)
+    (addrs : List Addr) (queueLen : Nat) (keystores : List Wid) (passOk : Bool) (w : Wid) :
+    PCI (E.ctx (runH E w0 evs).node) addrs (removeWallet queueLen keystores passOk (runH E w0 evs).s w).2
+      (runH E w0 evs).sp.chain :=
+  pci_start (hinvc_run evs w0 H0 hD) (pendNodup_runH E evs w0 hn0) addrs queueLen keystores passOk w
+
+/-- `pci_reachable` on the concrete C09 history of `MW.Lemmas.RemoveReach` (fresh wallet · connect B1 · recv T1 · recv T2):
+    the pending-credit bucket holds T1:0 (it pays W1) when the removal of W1 is requested; every hypothesis is met -/
+example : PCI (exE.ctx MW.Lemmas.RemoveReach.exWm.node) ["A1"]
+      (removeWallet 0 ["W1"] true MW.Lemmas.RemoveReach.exWm.s "W1").2 MW.Lemmas.RemoveReach.exWm.sp.chain ∧
+    MW.Lemmas.RemoveReach.exWm.s.pendCred.map (·.1) = [("T1", 0)] :=
+  ⟨pci_reachable (exEvs.take 3) exW0 MW.Lemmas.RemoveReach.exHInvC0 List.nodup_nil
+      (fun x hx => MW.Lemmas.RemoveReach.exDomainC x (MW.Lemmas.RemoveReach.worldsH_take exE 3 exEvs exW0 x hx))
+      ["A1"] 0 ["W1"] true "W1", by decide⟩
 
 -- ------------------------------------------------------------------ a concrete instance
 
